@@ -2,6 +2,7 @@
   Model.C13 — typed operation interface of the series-file model.
 -/
 import Influx.Model.SeriesFile
+import Influx.Model.SeriesFileG
 
 namespace Influx.C13
 open Influx.SF
@@ -25,6 +26,10 @@ inductive Op where
   | allKeys
   | state (p : Nat)
   | dump (p : Nat)
+  /-- harness: start every partition with the (small) empty segment `id` instead of 0000 -/
+  | smallSeg (id : Nat)
+  /-- harness: a header-only newest segment appears in partition `p` (crashed roll-over); reopen -/
+  | hdrSeg (p : Nat)
 deriving Repr
 
 inductive Obs where
@@ -74,6 +79,9 @@ def step (s : State) : Op → State × Obs
     match s.parts[i]? with
     | some p => (s, .entries (entries p.file))
     | none => (s, .err "bad-op")
+  -- only meaningful in the general model (`stepG`)
+  | .smallSeg _ => (s, .err "bad-op")
+  | .hdrSeg _ => (s, .err "bad-op")
 
 def run : State → List Op → List (Op × Obs)
   | _, [] => []
@@ -93,5 +101,73 @@ def touches : Op → List Nat
   | .compact p => [p]
   | .allIDs | .allKeys | .segCompact | .reopen => List.range partN
   | .threshold _ => []
+  | .smallSeg _ | .hdrSeg _ => List.range partN
+
+/-! ### several segments per partition -/
+
+/-- the general model (`Model/SeriesFileG.lean`); crash ops and the offline segment compaction
+    are not modelled there (`unmodelled`: the driver prints `*`) -/
+def stepG (s : State) : Op → State × Obs
+  | .create keys =>
+    match s.createG keys with
+    | some (s', ids) => (s', .ids ids)
+    | none => (s, .err "unmodelled")
+  | .delete id =>
+    match s.deleteG id with
+    | some s' => (s', .ok)
+    | none => (s, .err "unmodelled")
+  | .delKey k =>
+    let id := s.findIDG k
+    if id ≠ 0 then
+      match s.deleteG id with
+      | some s' => (s', .id id)
+      | none => (s, .err "unmodelled")
+    else (s, .id id)
+  | .id k => (s, .id (s.findIDG k))
+  | .key id => (s, .key (s.seriesKeyG id))
+  | .reopen => (s.reopenG, .ok)
+  | .compact p => (s.compactG p, .ok)
+  | .threshold n => (s.setThreshold n, .ok)
+  | .allIDs => (s, .keyIDs (s.seen.map fun k => (k.1, s.findIDG k)))
+  | .allKeys => (s, .idKeys (s.issued.map fun id => (id, s.seriesKeyG id)))
+  | .state i =>
+    match s.parts[i]? with
+    | some p =>
+      (s, .nums [p.seq, p.maxSeriesID, p.maxOffset,
+        (match p.idxFile with | some d => d.count | none => 0), p.memIDOff.length, p.tomb.length])
+    | none => (s, .err "bad-op")
+  | .dump i =>
+    match s.parts[i]? with
+    | some p => (s, .entries p.entriesG)
+    | none => (s, .err "bad-op")
+  | .smallSeg id => if s.fresh ∧ id < 65536 then (s.smallSeg id, .ok) else (s, .err "bad-op")
+  | .hdrSeg i => if i < partN then (s.hdrSeg i, .ok) else (s, .err "bad-op")
+  | .segCompact | .torn .. | .tornDel .. => (s, .err "unmodelled")
+
+/-- bytes an op can append to one segment at most -/
+def cost : Op → Nat
+  | .create keys => (keys.map fun k => entryHdrSize + k.1.length).sum
+  | .delete _ | .delKey _ | .tornDel .. => entryHdrSize
+  | .torn k _ => entryHdrSize + k.1.length
+  | _ => 0
+
+/-- every partition has the single segment 0000 and `op` cannot fill it: no roll-over can
+    happen while `op` runs, the single-segment model applies -/
+def plainFor (s : State) (op : Op) : Bool :=
+  (match op with | .smallSeg _ | .hdrSeg _ => false | _ => true) &&
+  s.parts.all fun p => p.older.isEmpty && p.segId == 0 && decide (p.file.length + cost op ≤ 2 ^ 22)
+
+/-- **the model the driver runs**: the single-segment model while no roll-over is possible,
+    the general one otherwise -/
+def stepM (s : State) (op : Op) : State × Obs := if plainFor s op then step s op else stepG s op
+
+def runM : State → List Op → List (Op × Obs)
+  | _, [] => []
+  | st, o :: os => (o, (stepM st o).2) :: runM (stepM st o).1 os
+
+/-- the states before each op of a run -/
+def statesM : State → List Op → List (State × Op)
+  | _, [] => []
+  | st, o :: os => (st, o) :: statesM (stepM st o).1 os
 
 end Influx.C13
